@@ -181,3 +181,265 @@ Proof. intros I2 Wk Ho Hm. destruct k as [h o|pa o|f t o|h|pa|p]; cbn [step call
 
 Lemma inv2_empty : inv2 [].
 Proof. split; [apply inv_empty|]. intros k p E. discriminate. Qed.
+
+(* ---------- PinOptions.Equals against the monitor's readings of "identical" ---------- *)
+Lemma aget_nz k m : k <> 0%N -> aget k (nz m) = aget k m.
+Proof. intros Hk. unfold nz. induction m as [|[k' v'] r IH]; [reflexivity|]. cbn [filter fst aget].
+  destruct (N.eqb_spec k' 0) as [->|Hk']; cbn [negb].
+  - destruct (N.eqb_spec k 0); [contradiction|exact IH].
+  - cbn [aget]. destruct (N.eqb_spec k k'); [reflexivity|exact IH]. Qed.
+Lemma nz_nodup m : NoDup (map fst m) -> NoDup (map fst (nz m)).
+Proof. unfold nz. induction m as [|[k v] r IH]; intros ND; [constructor|]. cbn [map fst] in ND. inversion ND as [|? ? Hn Hr]; subst.
+  cbn [filter fst]. destruct (negb (k =? 0)%N); [|auto]. cbn [map fst]. constructor; auto.
+  intros Hin. apply Hn. apply in_map_iff in Hin. destruct Hin as [x [E Hx]]. apply filter_In in Hx. apply in_map_iff. exists x. tauto. Qed.
+Lemma in_nz k v m : In (k, v) (nz m) -> In (k, v) m /\ k <> 0%N.
+Proof. unfold nz. intros H. apply filter_In in H. destruct H as [H1 H2]. cbn [fst] in H2. split; auto.
+  apply negb_true_iff in H2. now apply N.eqb_neq. Qed.
+
+Lemma meta_nz_sub a b : NoDup (map fst a) -> meta_same a b -> meta_sub (nz a) (nz b) = true.
+Proof. intros ND Hs. apply forallb_forall. intros [k v] Hin. cbn [fst snd]. apply in_nz in Hin. destruct Hin as [Hin Hk].
+  rewrite (aget_nz k b Hk), <- (Hs k Hk), (aget_of_in k v a ND Hin). apply optN_eqb_refl. Qed.
+Lemma meta_nz_eqb a b : NoDup (map fst a) -> NoDup (map fst b) -> meta_same a b -> meta_eqb (nz a) (nz b) = true.
+Proof. intros Na Nb Hs. unfold meta_eqb. rewrite (meta_nz_sub a b Na Hs), (meta_nz_sub b a Nb); auto.
+  intros k Hk. symmetry. now apply Hs. Qed.
+
+Lemma seteqb_of_incl a b : incl a b -> incl b a -> seteqb a b = true.
+Proof. intros H1 H2. unfold seteqb. apply andb_true_iff. split; apply subsetb_incl; assumption. Qed.
+
+(* a stored pin is in stored normal form: mode from depth, no user allocations, expiry in whole seconds *)
+Lemma norm_fields ex : pb_norm ex = ex ->
+  o_mode (p_opts ex) = mode_of_depth (p_depth ex) /\ o_ualloc (p_opts ex) = [] /\
+  (match o_expire (p_opts ex) with Some (s, _) => Some (s, 0%N) | None => None end) = o_expire (p_opts ex).
+Proof. intros H. destruct ex as [o ci ty al d rf]. unfold pb_norm in H. cbn [p_opts p_depth p_cid p_ty p_allocs p_ref] in *.
+  injection H as E. destruct o as [a b nm md sh ua ex mt up og]. unfold pb_norm_opts in E.
+  cbn [o_rmin o_rmax o_name o_mode o_shard o_ualloc o_expire o_meta o_update o_origins] in *.
+  injection E as E1 E2 E3. rewrite E3. auto. Qed.
+
+Lemma opts_equal_length_ualloc a b : opts_equal a b = true -> length (o_ualloc a) = length (o_ualloc b).
+Proof. unfold opts_equal. rewrite !andb_true_iff. intros [[[[[[[[_ H] _] _] _] _] _] _] _]. now apply Nat.eqb_eq. Qed.
+
+(* Equals = true: the stored entry reads as the request (the property's reading of options) *)
+Lemma opts_equal_sem o' ex d : opts_equal o' (p_opts ex) = true -> pb_norm ex = ex -> meta_nodup o' -> meta_nodup (p_opts ex) ->
+  mode_of_depth d = o_mode o' ->
+  opts_sem_eqb (pb_norm_opts d o') (p_opts ex) = true /\ opts_sem_eqb (p_opts ex) (pb_norm_opts (p_depth ex) o') = true /\
+  expire_eqb (o_expire o') (o_expire (p_opts ex)) = true /\ o_ualloc o' = [] /\ (o_mode o' =? o_mode (p_opts ex))%N = true.
+Proof. intros OE Hn Mo Me Hd. pose proof (opts_equal_length_ualloc _ _ OE) as Hlen.
+  destruct (opts_equal_sound _ _ OE) as [S1 S2 S3 S4 S5 _ S7 S8 [S9a S9b]]. destruct (norm_fields ex Hn) as [N1 [N2 N3]].
+  assert (Hex : expire_eqb (match o_expire o' with Some (s, _) => Some (s, 0%N) | None => None end) (o_expire (p_opts ex)) = true).
+  { rewrite S7, N3. apply expire_eqb_refl. }
+  assert (Hex2 : expire_eqb (o_expire (p_opts ex)) (match o_expire o' with Some (s, _) => Some (s, 0%N) | None => None end) = true).
+  { rewrite S7, N3. apply expire_eqb_refl. }
+  assert (Hm1 : meta_eqb (nz (o_meta o')) (nz (o_meta (p_opts ex))) = true) by (apply meta_nz_eqb; auto).
+  assert (Hm2 : meta_eqb (nz (o_meta (p_opts ex))) (nz (o_meta o')) = true).
+  { apply meta_nz_eqb; auto. intros k Hk. symmetry. now apply S8. }
+  split; [|split; [|split; [|split]]].
+  - unfold opts_sem_eqb, pb_norm_opts. cbn [o_rmin o_rmax o_name o_mode o_shard o_expire o_meta o_origins].
+    rewrite S3, S4, S1, S5, Hd, S2, !Z.eqb_refl, !N.eqb_refl, Hex, Hm1, (seteqb_of_incl _ _ S9a S9b). reflexivity.
+  - unfold opts_sem_eqb, pb_norm_opts. cbn [o_rmin o_rmax o_name o_mode o_shard o_expire o_meta o_origins].
+    rewrite <- S3, <- S4, <- S1, <- S5, N1, !Z.eqb_refl, !N.eqb_refl, Hex2, Hm2, (seteqb_of_incl _ _ S9b S9a). reflexivity.
+  - rewrite S7. apply expire_eqb_refl.
+  - rewrite N2 in Hlen. destruct (o_ualloc o'); [reflexivity|discriminate].
+  - rewrite S2. apply N.eqb_refl. Qed.
+
+(* the monitor's "literally identical" implies Equals = true *)
+Lemma ident_lit_equal o' d ex : identical_req o' d ex = true -> literal_req o' ex = true -> pb_norm ex = ex ->
+  opts_equal o' (p_opts ex) = true.
+Proof. unfold identical_req, literal_req, opts_sem_eqb, pb_norm_opts. cbn [o_rmin o_rmax o_name o_mode o_shard o_expire o_meta o_origins].
+  rewrite !andb_true_iff. intros [[[[[[[[[[H1 H2] H3] _] H5] _] _] _] He] Hu] Hm] [Ho Hl] Hn.
+  destruct (norm_fields ex Hn) as [_ [N2 _]].
+  apply Z.eqb_eq in H1, H2. apply N.eqb_eq in H3, H5, Hm. apply expire_eqb_eq in He. apply list_eqb_N_eq in Ho.
+  unfold meta_eqb in Hl. apply andb_true_iff in Hl. destruct Hl as [L1 L2]. unfold meta_sub in L1, L2. rewrite forallb_forall in L1, L2.
+  destruct (o_ualloc o') as [|u us] eqn:Eu; [|discriminate].
+  unfold opts_equal. rewrite H3, Hm, H2, H1, H5, Eu, N2, He, Ho, !N.eqb_refl, !Z.eqb_refl, !Nat.eqb_refl, expire_eqb_refl. cbn [length Nat.eqb sortN fold_right list_eqb andb].
+  assert (F1 : forallb (fun kv => (fst kv =? 0)%N || optN_eqb (aget (fst kv) (o_meta (p_opts ex))) (Some (snd kv))) (o_meta o') = true).
+  { apply forallb_forall. intros kv Hin. rewrite (L1 kv Hin). apply orb_true_r. }
+  assert (F2 : forallb (fun kv => (fst kv =? 0)%N || is_some (aget (fst kv) (o_meta o'))) (o_meta (p_opts ex)) = true).
+  { apply forallb_forall. intros kv Hin. specialize (L2 kv Hin). apply optN_eqb_eq in L2. rewrite L2. apply orb_true_r. }
+  rewrite F1, F2. cbn [andb].
+  assert (F3 : forallb (fun x => memN x (o_origins (p_opts ex))) (o_origins (p_opts ex)) = true).
+  { apply forallb_forall. intros x Hx. now apply memN_in. }
+  now rewrite F3. Qed.
+
+(* ---------- the model's answers pass the monitor ---------- *)
+Lemma inv2_meta st : inv2 st -> forall k p, aget k st = Some p -> meta_nodup (p_opts p).
+Proof. intros [_ W] k p E. exact (proj1 (W k p E)). Qed.
+
+Lemma unpin_passes c e st h : inv2 st ->
+  spec_unpin c e st h (obsres_of (fst (unpin_op c e st h))) (snd (unpin_op c e st h)) = true.
+Proof. intros I2. unfold unpin_op. destruct (follower c); [reflexivity|].
+  destruct (aget h st) as [p|] eqn:Ep; [|reflexivity].
+  pose proof (inv2_meta st I2 h p Ep) as Mp.
+  destruct (p_ty p) eqn:Ty; try reflexivity.
+  - (* data pin *) cbn [fst snd obsres_of spec_unpin]. rewrite Ep, (pin_eqb_refl p Mp), Ty. cbn [andb].
+    unfold log_unpin. rewrite aget_adel_same. cbn [is_some negb andb].
+    apply same_except_intro; [exact (inv2_meta st I2)|]. intros k Hk. apply aget_adel_other. intros ->. apply Hk. now left.
+  - (* meta pin *) unfold cids_from_meta. destruct (p_ref p) as [r|] eqn:Er; [|reflexivity].
+    destruct (aget r st) as [cd|]; [|reflexivity]. destruct (aget r (e_links e)) as [ls|] eqn:El; [|reflexivity].
+    cbn [fst snd obsres_of spec_unpin]. rewrite Ep, (pin_eqb_refl p Mp), Ty, Er, El. cbn [andb].
+    set (cs := List.rev ls ++ [r; h]).
+    assert (Hgone : forall k, In k (h :: r :: ls) -> aget k (log_unpin (fold_left log_unpin cs st) h) = None).
+    { intros k Hk. unfold log_unpin at 1. destruct (N.eq_dec k h) as [->|Hn]; [apply aget_adel_same|].
+      rewrite aget_adel_other by exact Hn. apply fold_unpin_in. unfold cs. apply in_or_app.
+      destruct Hk as [->|[->|Hk]]; [contradiction|right; now left|left; now apply in_rev in Hk]. }
+    apply andb_true_iff. split.
+    + apply forallb_forall. intros k Hk. now rewrite (Hgone k Hk).
+    + apply same_except_intro; [exact (inv2_meta st I2)|]. intros k Hk. unfold log_unpin at 1.
+      rewrite aget_adel_other by (intros ->; apply Hk; now left). apply fold_unpin_notin. unfold cs. intros Hin. apply Hk.
+      apply in_app_or in Hin. destruct Hin as [Hin|[<-|[<-|[]]]]; [right; right; now apply in_rev|right; now left|now left]. Qed.
+
+Lemma update_passes c e st f t o : inv2 st ->
+  spec_update c e st f t o (obsres_of (fst (pin_update_op c e st f t o))) (snd (pin_update_op c e st f t o)) = true.
+Proof. intros I2. destruct (pin_update_op c e st f t o) as [[q|x] st'] eqn:E; cbn [fst snd obsres_of spec_update].
+  - destruct (pin_update_ok _ _ _ _ _ _ _ _ E) as [_ [ex [G [_ [Eq ->]]]]]. unfold spec_update. rewrite G.
+    assert (Hc : p_cid q = t) by (rewrite Eq; reflexivity).
+    rewrite <- Hc at 1. rewrite log_pin_same. cbn [is_some]. rewrite andb_true_r.
+    assert (Mq : meta_nodup (p_opts q)).
+    { rewrite Eq. apply stored_wf_updated. destruct I2 as [_ W]. exact (W _ _ G). }
+    unfold update_expected. rewrite <- Eq. rewrite (pin_eqb_refl (pb_norm q) Mq). cbn [andb].
+    apply same_except_intro; [exact (inv2_meta st I2)|]. intros k Hk. apply log_pin_other. rewrite Hc. intros ->. apply Hk. now left.
+  - unfold spec_update. destruct (is_some (aget f st)); reflexivity. Qed.
+
+(* the allocation clause, on the entry the model stores *)
+Section Main.
+Context (c : cfg) (e : env) (ord : list N -> list N) (st : pinset) (p : pin) (q : pin) (st' : pinset).
+Hypothesis I2 : inv2 st.
+Hypothesis Ho : order_oracle ord.
+Hypothesis Hm : one_metric_per_peer e.
+Hypothesis Mp : meta_nodup (p_opts p).
+Hypothesis H : pin_main c e ord st p [] = (ROk q, st').
+Let h := p_cid p.
+Let o' := with_defaults c (p_opts p).
+Let p1 := setup_rf c p.
+Let existing := aget h st.
+Let cur := match existing with Some ex => p_allocs ex | None => [] end.
+
+Lemma main_cid : p_cid q = h.
+Proof. destruct (pin_main_cases c e ord st p q st' H) as [[_ ->]|[_ [[l [-> _]]|[ex [l [Ex [_ [-> _]]]]]]]]; cbn [p_cid set_allocs]; try apply setup_rf_cid.
+  exact (inv_keyed st (proj1 I2) _ _ Ex). Qed.
+
+Lemma fresh_of_allocate prio i l : rmin i = o_rmin o' -> rmax i = o_rmax o' -> current i = cur -> metrics i = e_metrics e ->
+  blacklist i = [] -> priority i = prio -> rev i = alloc_rev c ->
+  allocate (e_now e) i ord = Ok l ->
+  (if everywhere o' then (match l with [] => true | _ => false end)
+   else C03_Check.spec_okb (e_now e) (mk_input (o_rmin o') (o_rmax o') cur (e_metrics e) [] prio (alloc_rev c)) (ObsOk l)) = true.
+Proof. intros E1 E2 E3 E4 E5 E6 E7 AL.
+  assert (Ei : i = mk_input (o_rmin o') (o_rmax o') cur (e_metrics e) [] prio (alloc_rev c)).
+  { destruct i; cbn in *; subst; reflexivity. }
+  rewrite Ei in AL. clear Ei E1 E2 E3 E4 E5 E6 E7 i.
+  set (i := mk_input (o_rmin o') (o_rmax o') cur (e_metrics e) [] prio (alloc_rev c)) in *.
+  destruct (everywhere o') eqn:Ev.
+  - unfold everywhere in Ev. apply andb_true_iff in Ev. destruct Ev as [A B]. apply Z.eqb_eq in A, B.
+    rewrite (alloc_everywhere_l (e_now e) i ord) in AL by (unfold i; cbn [rmin rmax]; lia). now inversion AL.
+  - assert (Hcur : NoDup cur).
+    { unfold cur, existing. destruct (aget h st) as [ex|] eqn:Ex; [exact (proj2 (proj2 I2 _ _ Ex))|constructor]. }
+    pose proof (alloc_model_passes_monitor_l (e_now e) i ord Ho Hm Hcur) as X. rewrite AL in X. exact X. Qed.
+End Main.
+
+Lemma setup_existing_none p1 ex : setup_existing p1 (Some ex) = None ->
+  ptype_eqb (p_ty ex) (p_ty p1) = true /\ ((o_mode (p_opts ex) =? 0)%N && negb (o_mode (p_opts p1) =? 0)%N) = false.
+Proof. unfold setup_existing. destruct (ptype_eqb (p_ty ex) (p_ty p1)); cbn [negb]; [|discriminate].
+  destruct ((o_mode (p_opts ex) =? 0)%N && negb (o_mode (p_opts p1) =? 0)%N); [discriminate|auto]. Qed.
+
+Lemma main_passes c e ord st p q st' : inv2 st -> order_oracle ord -> one_metric_per_peer e ->
+  meta_nodup (p_opts p) -> NoDup (p_allocs p) ->
+  (match o_update (p_opts p) with Some u => if negb (u =? p_cid p)%N then Some u else None | None => None end) = None ->
+  pin_main c e ord st p [] = (ROk q, st') -> spec_pin c e st p (OOk q) st' = true.
+Proof. intros I2 Ho Hm Mp Ap NR H. unfold spec_pin. cbv zeta. rewrite NR.
+  pose proof (main_cid c e ord st p q st' I2 H) as Hc.
+  destruct (pin_main_ok _ _ _ _ _ _ _ _ H) as [Est [FV [EP [SE _]]]]. cbv zeta in FV, EP, SE. rewrite setup_rf_opts in FV, EP.
+  set (o' := with_defaults c (p_opts p)) in *. set (h := p_cid p) in *.
+  (* refusal conditions are all false *)
+  assert (MR : negb (negb (factors_valid (o_rmin o') (o_rmax o')) || expire_past (e_now e) (o_expire o')
+                 || match aget h st with
+                    | Some ex => negb (ptype_eqb (p_ty ex) (p_ty p)) || ((o_mode (p_opts ex) =? 0)%N && negb (o_mode o' =? 0)%N)
+                    | None => false end) = true).
+  { rewrite FV, EP. cbn [negb orb]. destruct (aget h st) as [ex|] eqn:Ex; [|reflexivity].
+    destruct (setup_existing_none _ _ SE) as [T1 T2]. rewrite setup_rf_ty in T1. rewrite setup_rf_opts in T2. fold o' in T2. now rewrite T1, T2. }
+  rewrite MR. cbn [andb].
+  assert (Es : aget h st' = Some (pb_norm q)) by (rewrite Est, <- Hc; apply log_pin_same). rewrite Es.
+  assert (Hse : same_except [h] st st' = true).
+  { apply same_except_intro; [exact (inv2_meta st I2)|]. intros k Hk. rewrite Est. apply log_pin_other. rewrite Hc. intros ->. apply Hk. now left. }
+  rewrite Hse. cbn [andb].
+  pose proof (stored_wf_pin_main c e ord st p q st' I2 Ho Hm Mp Ap H) as [Mq Aq].
+  rewrite (pin_eqb_refl (pb_norm q) Mq). cbn [andb].
+  (* by cases on what the model stored *)
+  pose proof (pin_main_cases c e ord st p q st' H) as C. cbv zeta in C. fold h in C. fold o' in C.
+  assert (Hset : forall l x, p_opts (pb_norm (set_allocs l x)) = pb_norm_opts (p_depth x) (p_opts x)) by reflexivity.
+  assert (Mo : meta_nodup o') by exact Mp.
+  assert (Osem : forall d, opts_sem_eqb (pb_norm_opts d o') (pb_norm_opts d o') = true).
+  { intros d. unfold opts_sem_eqb, pb_norm_opts. cbn [o_rmin o_rmax o_name o_mode o_shard o_expire o_meta o_origins].
+    rewrite !Z.eqb_refl, !N.eqb_refl, expire_eqb_refl, (meta_eqb_refl _ (nz_nodup _ Mo)). cbn [andb].
+    apply seteqb_of_incl; apply incl_refl. }
+  destruct C as [[Ty ->]|[Ty [[l [-> [NE Hl]]]|[ex [l [Ex [OE [-> Hl]]]]]]]].
+  - (* a meta pin is stored as given *)
+    cbn [pb_norm p_ty p_opts p_depth]. rewrite setup_rf_ty, setup_rf_opts, setup_rf_depth, ptype_eqb_refl. fold o'. rewrite Osem. cbn [andb].
+    rewrite Ty. reflexivity.
+  - (* the request is stored (new, or some option differs) *)
+    cbn [pb_norm p_ty p_opts p_depth p_allocs set_allocs]. rewrite setup_rf_ty, setup_rf_opts, setup_rf_depth, ptype_eqb_refl. fold o'. rewrite Osem. cbn [andb].
+    destruct (ptype_eqb (p_ty p) MetaT || negb (mode_of_depth (p_depth p) =? o_mode o')%N) eqn:Skip; [reflexivity|].
+    apply orb_false_iff in Skip. destruct Skip as [_ Md]. apply negb_false_iff, N.eqb_eq in Md.
+    (* not literally identical, since Equals answered false *)
+    assert (IL : match aget h st with Some ex => identical_req o' (p_depth p) ex && literal_req o' ex | None => false end = false).
+    { destruct (aget h st) as [ex|] eqn:Ex; [|reflexivity]. destruct (identical_req o' (p_depth p) ex && literal_req o' ex) eqn:B; [|reflexivity].
+      apply andb_true_iff in B. destruct B as [B1 B2]. exfalso.
+      assert (Nex : pb_norm ex = ex) by (destruct I2 as [[_ S] _]; exact (proj1 (proj2 (S _ _ Ex)))).
+      pose proof (NE ex eq_refl) as NE'. rewrite (ident_lit_equal o' (p_depth p) ex B1 B2 Nex) in NE'. discriminate. }
+    rewrite IL.
+    (* so `changed` must hold *)
+    assert (CH : match p_allocs p with
+                 | _ :: _ => if everywhere o' then (if everywhere o' then match l with [] => true | _ :: _ => false end
+                                 else C03_Check.spec_okb (e_now e) (mk_input (o_rmin o') (o_rmax o') (match aget h st with Some ex => p_allocs ex | None => [] end) (e_metrics e) [] [] (alloc_rev c)) (ObsOk l))
+                             else perm_eqb l (p_allocs p)
+                 | [] => if everywhere o' then match l with [] => true | _ :: _ => false end
+                         else C03_Check.spec_okb (e_now e) (mk_input (o_rmin o') (o_rmax o') (match aget h st with Some ex => p_allocs ex | None => [] end) (e_metrics e) [] (o_ualloc o') (alloc_rev c)) (ObsOk l) end = true).
+    { rewrite setup_rf_allocs in Hl. fold o' in Hl.
+      destruct (p_allocs p) as [|a r] eqn:Pa.
+      - assert (E0 : (if everywhere o' then @nil N else []) = []) by (destruct (everywhere o'); reflexivity). rewrite E0 in Hl.
+        destruct Hl as [[Hx _]|[_ AL]]; [congruence|].
+        apply (fresh_of_allocate c e ord st p I2 Ho Hm (o_ualloc o') (alloc_input c e (setup_rf c p) (aget h st) []) l); try exact AL;
+          cbn [alloc_input rmin rmax priority current metrics blacklist rev]; rewrite ?setup_rf_opts; reflexivity.
+      - destruct (everywhere o') eqn:Ev.
+        + destruct Hl as [[Hx _]|[_ AL]]; [congruence|].
+          pose proof (fresh_of_allocate c e ord st p I2 Ho Hm (o_ualloc o') (alloc_input c e (setup_rf c p) (aget h st) []) l) as X.
+          fold h in X. fold o' in X. rewrite Ev in X.
+          apply X; try exact AL; cbn [alloc_input rmin rmax priority current metrics blacklist rev]; rewrite ?setup_rf_opts; reflexivity.
+        + destruct Hl as [[_ ->]|[Hx _]]; [apply perm_eqb_refl|discriminate]. }
+    destruct (match aget h st with Some ex => identical_req o' (p_depth p) ex | None => false end); cbn [negb].
+    + rewrite CH. apply orb_true_iff. left. apply orb_true_r.
+    + exact CH.
+  - (* Equals answered true: the stored entry is kept *)
+    rewrite Ex in *.
+    assert (Sx : stored_ok h ex) by (destruct I2 as [[_ S] _]; exact (S _ _ Ex)). destruct Sx as [_ [Nex _]].
+    destruct (proj2 I2 _ _ Ex) as [Mex Aex].
+    destruct (setup_existing_none _ _ SE) as [T1 _]. rewrite setup_rf_ty in T1.
+    cbn [pb_norm p_ty p_opts p_depth p_allocs set_allocs]. rewrite T1. cbn [andb].
+    destruct (ptype_eqb (p_ty p) MetaT || negb (mode_of_depth (p_depth p) =? o_mode o')%N) eqn:Skip.
+    + (* the allocation clause is not applied; the options clause needs no depth/mode agreement of the request *)
+      rewrite andb_true_r.
+      destruct (opts_equal_sound _ _ OE) as [S1 S2 S3 S4 S5 _ S7 S8 [S9a S9b]]. destruct (norm_fields ex Nex) as [N1 [N2 N3]].
+      unfold opts_sem_eqb, pb_norm_opts. cbn [o_rmin o_rmax o_name o_mode o_shard o_expire o_meta o_origins].
+      rewrite <- S3, <- S4, <- S1, <- S5, <- N1, !Z.eqb_refl, !N.eqb_refl. cbn [andb].
+      rewrite N3, S7, N3, expire_eqb_refl. cbn [andb].
+      rewrite (meta_nz_eqb _ _ Mex Mo) by (intros k Hk; symmetry; now apply S8). cbn [andb].
+      apply seteqb_of_incl; assumption.
+    + apply orb_false_iff in Skip. destruct Skip as [_ Md]. apply negb_false_iff, N.eqb_eq in Md.
+      destruct (opts_equal_sem o' ex (p_depth p) OE Nex Mo Mex Md) as [Q1 [Q2 [Q3 [Q4 Q5]]]].
+      assert (Eo : pb_norm_opts (p_depth ex) (p_opts ex) = p_opts ex) by (change (p_opts (pb_norm ex) = p_opts ex); now rewrite Nex).
+      rewrite Eo, Q2. cbn [andb].
+      assert (IS : identical_req o' (p_depth p) ex = true) by (unfold identical_req; now rewrite Q1, Q3, Q4, Q5).
+      rewrite IS. cbn [negb].
+      destruct Hl as [[Hne ->]|[Hnil AL]].
+      * (* allocations kept *)
+        assert (K : match p_allocs ex with [] => false | _ :: _ => perm_eqb (p_allocs ex) (p_allocs ex) end = true).
+        { destruct (p_allocs ex); [congruence|apply perm_eqb_refl]. }
+        destruct (literal_req o' ex); cbn [andb].
+        -- destruct (p_allocs ex) eqn:Pa; [congruence|]. apply perm_eqb_refl.
+        -- rewrite K. reflexivity.
+      * (* the kept entry had no allocations: a fresh allocation *)
+        rewrite Hnil.
+        assert (F : (if everywhere o' then match l with [] => true | _ :: _ => false end
+                     else C03_Check.spec_okb (e_now e) (mk_input (o_rmin o') (o_rmax o') [] (e_metrics e) [] [] (alloc_rev c)) (ObsOk l)) = true).
+        { pose proof (fresh_of_allocate c e ord st p I2 Ho Hm [] (alloc_input c e ex (Some ex) []) l) as X. fold h in X. fold o' in X.
+          rewrite Ex, Hnil in X. destruct (opts_equal_sound _ _ OE) as [_ _ S3 S4 _ _ _ _ _]. destruct (norm_fields ex Nex) as [_ [N2 _]].
+          apply X; try reflexivity; try exact AL; cbn [alloc_input rmin rmax current priority]; auto. }
+        destruct (literal_req o' ex); cbn [andb]; [exact F|]. rewrite F. apply orb_true_r. Qed.
